@@ -1329,6 +1329,13 @@ MUTANTS = [
 ]
 
 BENIGN = [
+    Benign('match-guard-clause', MH, "            if match:\n                # This variable is a numbered_variable\n                # Go and add it to variable_list with the appropriate sampler\n                (full_string, head) = match.groups()\n                variable_list.append(full_string)\n                sample_from_dict[full_string] = sample_from_dict[head]\n",
+           "            if match is None:\n                continue\n            (full_string, head) = match.groups()\n            variable_list.append(full_string)\n            sample_from_dict[full_string] = sample_from_dict[head]\n"),
+    Benign('sibling-loop-over-items', MH, "                    for k in entry:\n                        variables.append(k)\n                        if entry[k] == '':\n                            raise MissingInput('Cannot grade answer, a required input is missing.')\n                        sample_from_dict[k] = DependentSampler(formula=entry[k])\n",
+           "                    for k, formula in entry.items():\n                        variables.append(k)\n                        if formula == '':\n                            raise MissingInput('Cannot grade answer, a required input is missing.')\n                        sample_from_dict[k] = DependentSampler(formula=formula)\n"),
+    Benign('readiness-guard-clause', SAMPLING, "                if is_subset(dependencies, sample_dict):\n                    sample_dict[symbol] = sample_from[symbol].compute_sample(\n                        sample_dict, functions, suffixes)\n                    del unevaluated_dependents[symbol]\n                    progress_made = True\n",
+           "                if not is_subset(dependencies, sample_dict):\n                    continue\n                sample_dict[symbol] = sample_from[symbol].compute_sample(\n                    sample_dict, functions, suffixes)\n                del unevaluated_dependents[symbol]\n                progress_made = True\n"),
+    Benign('dict-values-extended', MH, "                expressions += [v for k, v in entry.items()]", "                expressions.extend(entry.values())"),
     Benign('flag-tested-with-is-false', SAMPLING, "            if not progress_made:", "            if progress_made is False:"),
     Benign('dependent-popped', SAMPLING, "                    del unevaluated_dependents[symbol]\n", "                    unevaluated_dependents.pop(symbol)\n"),
     Benign('is-subset-with-all', SAMPLING, "    for item in iterable:\n        if item not in iterable_superset:\n            return False\n    return True",
